@@ -147,6 +147,9 @@ func (obj *Package) Use(pkg *Package) {
 		}
 		for name, vv := range pkg.vars {
 			if vv.Export {
+				if xv := obj.vars[name]; xv != nil && xv.Pkg == obj && Unbound != xv.Val {
+					continue // the package's own variable is not replaced
+				}
 				obj.vars[name] = vv
 			}
 		}
@@ -155,6 +158,9 @@ func (obj *Package) Use(pkg *Package) {
 		}
 		for name, fi := range pkg.funcs {
 			if fi.Export {
+				if xf := obj.funcs[name]; xf != nil && xf.Pkg == obj {
+					continue // the package's own function is not replaced
+				}
 				obj.funcs[name] = fi
 			}
 		}
